@@ -573,3 +573,85 @@ def impl_solve_parsed(case):
                           'opts': case['opts'], 'scripts': scripts, 'entry': case['entry'], 'span_type': case['span_type'],
                           'start': case['start'], 'end': case['end'], 'kind': 'parsed'}
     return obs
+
+
+# =========================================================================== histories of public solver calls on one instance (C06)
+def impl_hist(case):
+    """Runs a history of solve_t / solve_period / solve calls (exceptions caught) on ONE scripted model instance."""
+    import fsic
+    import scripted
+    n, st = case['n'], case['span_type']
+    cls = scripted.make_class(fsic.BaseModel, case['nvars'], case['check'], case['endo'])
+    span = make_span(st, n)
+    ids = span_ids(span, n, st)
+    m = scripted.instantiate(cls, make_span(st, n), case['vals'], case['status'], case['iters'], case['scripts'],
+                             lags=case.get('lags', 0), leads=case.get('leads', 0))
+
+    def lab_id(lab):
+        for j in range(n):
+            if bool(span[j] == lab):
+                return ids[j]
+        return -1
+    outs, snaps = [], []
+    for call in case['calls']:
+        kw = solve_kwargs(call['opts'])
+        try:
+            if call['api'] == 'solve_t':
+                outs.append(['ret', bool(m.solve_t(call['t'], **kw))])
+            elif call['api'] == 'solve_period':
+                outs.append(['ret', bool(m.solve_period(label_of(st, span, n, call['start']), **kw))])
+            else:
+                labels, indexes, solved = m.solve(start=label_of(st, span, n, call['start']), end=label_of(st, span, n, call['end']), **kw)
+                outs.append(['ret', [lab_id(x) for x in labels], [int(x) for x in indexes], [bool(x) for x in solved]])
+        except Exception as e:
+            c = e.__cause__
+            outs.append(['raise', type(e).__name__, type(c).__name__ if c is not None else None])
+        snaps.append([str(x) for x in m.__dict__['_status']])
+    obs = {'outs': outs, 'snaps': snaps, 'ids': ids}
+    obs.update(observe_state(m, case['nvars']))
+    return obs
+
+
+def c_hcall(case, ids, call):
+    opt = lambda sp: 'None' if sp is None else '(Some %s)' % lib.cZ(spec_id(case, ids, sp))
+    if call['api'] == 'solve_t':
+        return '(HSolveT %s %s)' % (c_opts(call['opts']), lib.cZ(call['t']))
+    if call['api'] == 'solve_period':
+        return '(HSolvePeriod %s %s)' % (c_opts(call['opts']), lib.cZ(spec_id(case, ids, call['start'])))
+    return '(HSolve %s %s %s)' % (c_opts(call['opts']), opt(call['start']), opt(call['end']))
+
+
+def c_hout(case, ids, call, out):
+    import scripted
+    if out[0] == 'raise':
+        return c_outcome(out, scripted.CAUSE_TAG)
+    if call['api'] == 'solve_t':
+        return '(Ret (1%%nat, [(0, %s, %s)]))' % (lib.cZ(call['t']), lib.cbool(out[1]))
+    if call['api'] == 'solve_period':
+        return '(Ret (1%%nat, [(%s, 0, %s)]))' % (lib.cZ(spec_id(case, ids, call['start'])), lib.cbool(out[1]))
+    vis = ['(%s, %s, %s)' % (lib.cZ(l), lib.cZ(t), lib.cbool(b)) for l, t, b in zip(out[1], out[2], out[3])]
+    return '(Ret (%d%%nat, %s))' % (len(out[1]), lib.clist(vis))
+
+
+def c_hcase(case, obs):
+    ids = obs['ids']
+    return '(mkHCase %s %s %d%%nat %s %s %s %s %s)' % (
+        c_scripts(case['scripts']), c_desc(case), SPAN_KIND[case['span_type']], lib.clist(lib.cZ(i) for i in ids),
+        lib.clist(c_hcall(case, ids, c) for c in case['calls']),
+        c_state(case['vals'], case['status'], case['iters'], []),
+        c_state(obs['vals'], obs['status'], obs['iters'], obs['log']),
+        lib.clist(c_hout(case, ids, c, o) for c, o in zip(case['calls'], obs['outs'])))
+
+
+PREAMBLE_HIST = PREAMBLE_ALL.replace('Fsic.Solver.SolveAllF.', 'Fsic.Solver.SolveAllF Fsic.Solver.SolveAllHistF.')
+
+
+def correspond_hist(cases, obs, tag):
+    items = [c_hcase(c, o) for c, o in zip(cases, obs)]
+    return lib.run_coq_cases(tag, PREAMBLE_HIST, items, 'bad_indices check_hcase 0%nat cs')
+
+
+def explain_hist(case, obs):
+    c = c_hcase(case, obs)
+    return lib.coq_eval('explain_hist', PREAMBLE_HIST, 'let c := %s in run_hist (h_scripts c) (h_desc c) (h_kind c) (h_span c) '
+                        '(length (status (h_state c))) (h_calls c) (h_state c)' % c)[-3000:]
